@@ -5,6 +5,7 @@
 #define protected public
 #define private public
 #include "io.h"
+#include "notify.h"
 #undef protected
 #undef private
 #include "kernel/simio.hpp"
@@ -91,6 +92,7 @@ struct RefsWorld : World {
 	void gen(Rng &r, Plan &p, int tier) override {
 		int nops = (int) r.range(1, tier ? 100 : 50);
 		bool allocf = r.chance(1, 3), refuse = r.chance(1, 2);
+		p.set("inrefs", r.chance(1, 4));
 		for (int i = 0; i < nops; ++i) {
 			Op op; op.kind = (int) r.below(18);
 			op.a = r.below(3) | (r.below(3) << 8) | (r.below(4) << 16); // object, second object, holder slot
@@ -108,7 +110,10 @@ struct RefsWorld : World {
 		for (int i = 0; i < 3; ++i) { obj[i] = new HObj(i); all.push_back(obj[i]); model[i] = 1; }
 		metatype *slot[4] = {0, 0, 0, 0};
 		CArr ra, rb; ra.buf = rb.buf = 0;
-		const type_traits *rt = mpt_meta_reference_traits();
+		// the typed reference array holds metatype references (mpt_meta_reference_traits) or, in a quarter of the runs, input references
+		// (mpt_input_reference_traits: the notifier's slots; same contract, own code)
+		const type_traits *rt = p.get("inrefs") ? mpt_input_reference_traits() : mpt_meta_reference_traits();
+		if (p.get("inrefs")) st.hit("probe:input_reference_traits");
 		reference<HObj> *cref[2] = {new reference<HObj>(), new reference<HObj>()};
 		// library objects: 0 reply context, 1 raw data, 2 generic metatype, 3 stream input; holders counted in lib_model
 		// 4 text metatype (inline), 5 text metatype (300 bytes: buffer backed), 6 metatype view of an array, 7 remote output, 8 C++ io::stream input, 9 sub-tree view of the global configuration
